@@ -8,11 +8,11 @@ LOG=/tmp/seedlog/$(echo $SD | tr '/' '_'); mkdir -p /tmp/seedlog
 cd $WT && git checkout -q --detach $(git -C /repo rev-parse HEAD) 2>/dev/null && git checkout -q -- . 
 pyx=$(grep -c '^+++ .*\.\(pyx\|pxi\|cc\)' $SD/patch.diff)
 if [ "$SKIP_CONFIRM" != "1" ]; then
-  d0=$(PYTHONPATH=$WT /venv/bin/python $SD/demo.py >$LOG.demo_clean 2>&1; echo $?)
+  C0=$(mktemp -d /tmp/seedcache.XXXXXX); d0=$(XDG_CACHE_HOME=$C0 PYTHONPATH=$WT /venv/bin/python $SD/demo.py >$LOG.demo_clean 2>&1; echo $?)
   git apply $SD/patch.diff || { echo "$PID $SD: patch does not apply"; exit 3; }
   if [ $pyx -gt 0 ]; then /venv/bin/python setup.py build_ext --inplace -j 8 >$LOG.build 2>&1; rm -rf build; fi
   suite=$(PYTHONPATH=$WT /venv/bin/python -m pytest -q -p no:cacheprovider --timeout=900 -x 2>&1 | tail -1)
-  d1=$(PYTHONPATH=$WT /venv/bin/python $SD/demo.py >$LOG.demo_patched 2>&1; echo $?)
+  C1=$(mktemp -d /tmp/seedcache.XXXXXX); d1=$(XDG_CACHE_HOME=$C1 PYTHONPATH=$WT /venv/bin/python $SD/demo.py >$LOG.demo_patched 2>&1; echo $?)
   git checkout -q -- .
   if [ $pyx -gt 0 ]; then /venv/bin/python setup.py build_ext --inplace -j 8 >$LOG.build 2>&1; rm -rf build; fi
 else d0=skip; d1=skip; suite=skip; fi
@@ -23,3 +23,4 @@ timeout 3600 ./check $PID --tier $TIER >$LOG.check_$TIER 2>&1; rc=$?
 t1=$(date +%s)
 git -C /repo checkout -- .
 echo "$PID $SD: demo clean=$d0 patched=$d1 suite=[$suite] check($TIER) exit=$rc ($((t1-t0))s) $(grep -c '^VIOLATION' $LOG.check_$TIER) violation lines"
+[ -n "$C0" ] && rm -rf "$C0"; [ -n "$C1" ] && rm -rf "$C1"
